@@ -15,6 +15,7 @@ PLAN = dict(
                 "own reader would tolerate or mirror is still visible; the byte accounting mechanism is additionally model-checked by random operation sequences."),
     level_note=NOTE_BASE,
     runs=[
+        dict(name="conc", run="^(TestConcWellFormed|TestConcCountingWriter)$", checks=(40, 2000), shards=(2, 8), timeout=(400, 3600), race=True),
         dict(name="wf", run="^(TestPropWellFormed|TestCorpus)$", checks=(1500, 200000), shards=(2, 16), timeout=(300, 3600)),
         dict(name="aligned", run="^(TestAligned|TestOptionalParts)$", timeout=(300, 900)),
         dict(name="cw", run="^TestPropCountingWriter$", checks=(3000, 300000), shards=(1, 4), timeout=(300, 3600)),
